@@ -366,7 +366,7 @@ V("be-benign-extra-row-entry", ["C09"], B, "benign", (CF, "        \"erf\": \"er
 
 # ---- C01 / C04 / C10 / C11 ---------------------------------------------------------------------------------
 AN = "ffcx/analysis.py"
-PL = ["PIPE-FLAGS", "FACT-LAWS", "RULE-COHERENCE", "SCOPE-KEY", "QMETA-FLOW", "QRULE-GROUP", "QUAD-FAMILY", "OPT-GATE", "EXPR-LAYOUT", "RULE-SCOPED-NAMES", "STALE-LOOPVAR", "GEN-PARTITION"]
+PL = ["PIPE-FLAGS", "FACT-LAWS", "RULE-COHERENCE", "SCOPE-KEY", "QMETA-FLOW", "QMETA-INTERP", "GEN-INTEGRAL-IR", "QRULE-GROUP", "QUAD-FAMILY", "OPT-GATE", "EXPR-LAYOUT", "RULE-SCOPED-NAMES", "STALE-LOOPVAR", "GEN-PARTITION"]
 V("pipe-no-integral-scaling", ["C01"], PL, "fire", (AN, "        do_apply_integral_scaling=True,", "        do_apply_integral_scaling=False,"))
 V("pipe-no-pullbacks", ["C01"], PL, "fire", (AN, "        do_apply_function_pullbacks=True,\n", ""))
 V("pipe-jacobian-not-preserved", ["C01"], PL, "fire", (AN, "        preserve_geometry_types=(ufl.classes.Jacobian,),\n        do_apply_restrictions=True,", "        preserve_geometry_types=(),\n        do_apply_restrictions=True,"))
@@ -463,7 +463,7 @@ V("fact-conditional-two-loops-merged", ["C01"], ["FACT-LAWS"], "benign",
         "        factors = {}\n        for k in sorted(fac1):\n            f1 = F.nodes[fac1[k]][\"expression\"]\n            f2 = F.nodes[fac2[k]][\"expression\"] if k in fac2 else z\n            factors[k] = graph_insert(F, conditional(f0, f1, f2))\n        for k in sorted(fac2):\n            if k in fac1:\n                continue\n            f2 = F.nodes[fac2[k]][\"expression\"]\n            factors[k] = graph_insert(F, conditional(f0, z, f2))"))
 V("fact-product-benign-swap", ["C01"], ["FACT-LAWS"], "benign", (FAC, "                factors[argkey] = graph_insert(F, f0 * f1)", "                factors[argkey] = graph_insert(F, f1 * f0)"))
 
-QM = ["QMETA-FLOW"]
+QM = ["QMETA-FLOW", "QMETA-INTERP", "GEN-INTEGRAL-IR"]
 V("qmeta-degree-loop-carried", ["C11", "C01"], QM, "fire",
   (AN, "        for i, integral in enumerate(integral_data.integrals):\n            metadata = integral.metadata()\n", "        qd = -1\n        for i, integral in enumerate(integral_data.integrals):\n            metadata = integral.metadata()\n"),
   (AN, "                qd = -1\n                if \"quadrature_degree\" in metadata.keys():\n                    qd = metadata[\"quadrature_degree\"]", "                qd = metadata.get(\"quadrature_degree\", qd)"))
@@ -789,3 +789,26 @@ V("clamp-to-zero-only", ["C10"], ["TABLE-CLAMP", "OPT-GATE"], "fire",
   (ETF, "        table[np.where(np.isclose(table, n, rtol=rtol, atol=atol))] = n", "        table[np.where(np.isclose(table, n, rtol=rtol, atol=atol))] = 0.0"))
 V("clamp-benign-positional", ["C10"], ["TABLE-CLAMP", "OPT-GATE"], "benign",
   (ETF, "        table[np.where(np.isclose(table, n, rtol=rtol, atol=atol))] = n", "        close = np.isclose(table, n, rtol, atol)\n        table[np.where(close)] = n"))
+
+# ---- JIT entry points interpreted ---------------------------------------------------------------------------------
+JF = ["JIT-FLOW"]
+V("jf-objects-sorted", ["C14"], JF, "fire",
+  (JIT, "    compiled_objects = []\n    for name in object_names:\n        obj = getattr(compiled_module.lib, name)\n        compiled_objects.append(obj)\n",
+        "    compiled_objects = []\n    for name in sorted(object_names):\n        obj = getattr(compiled_module.lib, name)\n        compiled_objects.append(obj)\n"))
+V("jf-cached-objects-reversed", ["C14"], JF, "fire",
+  (JIT, "                compiled_objects = [getattr(compiled_module.lib, name) for name in object_names]", "                compiled_objects = [getattr(compiled_module.lib, name) for name in reversed(object_names)]"))
+V("jf-user-options-to-build", ["C13"], JF, "fire",
+  (JIT, "            forms,\n            form_names,\n            module_name,\n            p,\n", "            forms,\n            form_names,\n            module_name,\n            options,\n"))
+V("jf-header-for-default-type", ["C13"], JF, "fire",
+  (JIT, "            UFC_HEADER_DECL.format(np.dtype(p[\"scalar_type\"]).name)  # type: ignore\n            + UFC_INTEGRAL_DECL\n            + UFC_FORM_DECL\n        )",
+        "            UFC_HEADER_DECL.format(np.dtype(\"float64\").name)  # type: ignore\n            + UFC_INTEGRAL_DECL\n            + UFC_FORM_DECL\n        )"))
+V("jf-names-without-position", ["C13"], JF, "fire",
+  (JIT, "    form_names = [ffcx.naming.form_name(form, i, module_name) for i, form in enumerate(forms)]", "    form_names = [ffcx.naming.form_name(form, 0, module_name) for i, form in enumerate(forms)]"))
+V("jf-libraries-not-forwarded", ["C13"], JF, "fire",
+  (JIT, "            cffi_extra_compile_args,\n            cffi_verbose,\n            cffi_debug,\n            cffi_libraries,\n            visualise=visualise,\n        )\n    except Exception as e:\n        try:\n            # remove c file so that it will not timeout next time\n            c_filename = cache_dir.joinpath(module_name + \".c\")\n            os.replace(c_filename, c_filename.with_suffix(\".c.failed\"))\n        except Exception:\n            pass\n        raise e\n\n    obj, module = _load_objects(cache_dir, module_name, form_names)",
+        "            cffi_extra_compile_args,\n            cffi_verbose,\n            cffi_debug,\n            [],\n            visualise=visualise,\n        )\n    except Exception as e:\n        try:\n            # remove c file so that it will not timeout next time\n            c_filename = cache_dir.joinpath(module_name + \".c\")\n            os.replace(c_filename, c_filename.with_suffix(\".c.failed\"))\n        except Exception:\n            pass\n        raise e\n\n    obj, module = _load_objects(cache_dir, module_name, form_names)"))
+V("jf-wait-half", ["C14", "C15"], JF, "fire",
+  (JIT, "        for i in range(timeout):\n", "        for i in range(timeout // 2):\n"))
+V("jf-benign-comprehension", ["C14"], JF, "benign",
+  (JIT, "    compiled_objects = []\n    for name in object_names:\n        obj = getattr(compiled_module.lib, name)\n        compiled_objects.append(obj)\n",
+        "    compiled_objects = [getattr(compiled_module.lib, name) for name in object_names]\n"))
